@@ -32,7 +32,11 @@ Bad == <<New("", "0xg", "", "", "", "1"), New("", "0x1z", "", "", "", "2"), New(
          New("", "0x12g", "", "", "", "1"), New("", "0x_", "", "", "", "0"), New("", "0x1 ", "", "", "", "1"), New("", "0x-1", "", "", "", "1"),
          New("", "0xa", "", "1", "m/0", "1"), New("", "0xa", "", "", "m/2147483648", "1"), New("", "0xa", "", "", "44'/60'", "0"),
          New("13", "0xa", "", "", "", "1"), New("", "0xa", "", "4294967296", "", "2"), New("", "0xa", "", "2147483648", "", "0"),
-         New("", "1a", "", "", "", "1"), New("", "0x", "", "", "", "1"), New("", "0X1a", "", "", "", "1")>>
+         New("", "1a", "", "", "", "1"), New("", "0x", "", "", "", "1"), New("", "0X1a", "", "", "", "1"),
+         \* --language: unknown languages are refused, the name is case-insensitive
+         New("", "0xa", "", "", "", "1") @@ [language |-> "klingon"], New("12", "", "", "", "", "") @@ [language |-> "japanese"],
+         New("", "0xb", "", "", "", "2") @@ [language |-> "ENGLISH"], New("15", "", "", "", "", "") @@ [language |-> "English"],
+         New("", "", "", "", "", "") @@ [language |-> "englis"], New("", "", "", "", "", "") @@ [language |-> " english"]>>
 BadAt(j) == NItem("refused", Bad[j], <<>>, -1)
 O1 == NSingle
 O2 == O1 + NTwo
